@@ -25,7 +25,7 @@ BATCH = 10
 
 
 def plan(tier, seed):
-    n = 400 if tier == "quick" else 6000
+    n = 1000 if tier == "quick" else 6000
     descs = [{"kind": "dag", "seed": seed, "start": s, "n": BATCH} for s in range(0, n, BATCH)]
     descs += [{"kind": "map", "seed": seed, "start": s, "n": BATCH} for s in range(0, n // 2, BATCH)]
     return descs
